@@ -44,6 +44,12 @@ CLAIMED["C04"] = dict(text="Bounded symbolic model checking of the real add_posi
                   "assignment of backmap flags.",
              design="DESIGN.md 4/C04", technique="symbolic execution of the real Python code with z3 (symx), bounded exhaustive over schedules and input splits",
              note="coordinate file parsing (vermouth read_gro/read_pdb) is replaced by a sentinel array; update_positions scripted; system layouts from a catalogue. " + NOTE_COMMON)
+CLAIMED["C16"] = dict(text="Bounded symbolic model checking of the real NonBondEngine: every add/remove/concatenate history of the stated length (operation, residue, "
+                  "point, subset solver-chosen; with and without 5 001 pre-positioned residues so that a second tree is opened) with view-consistency, "
+                  "get_point and a brute-force minimum-image force reference after every step; the Lennard-Jones force law and the minimum-image "
+                  "distance properties are discharged over symbolic reals.",
+             design="DESIGN.md 4/C16", technique="symbolic execution of the real Python code with z3 (symx): selector-driven histories on real scipy KD-trees, QF_NRA obligations for the force law and minimum image",
+             note="scipy KD-trees trusted (run concretely on catalogue points); add only on unpositioned residues (precondition of every caller); reals not floats. " + NOTE_COMMON)
 NOT_YET = {}
 def main():
     props = [json.loads(l) for l in open(os.path.join(ROOT, "properties.jsonl"))]
